@@ -5,7 +5,7 @@ TYPES = {"f": "float", "d": "double", "i": "int", "l": "int64_t", "cf": "std::co
 ABIS = {"scalar": "Fastor::simd_abi::scalar", "sse": "Fastor::simd_abi::sse", "avx": "Fastor::simd_abi::avx", "avx512": "Fastor::simd_abi::avx512",
         "fixed4": "Fastor::simd_abi::fixed_size<4>"}
 OPS = {0: "ctor", 1: "loadstore", 2: "neg", 3: "abs", 4: "add", 5: "sub", 6: "mul", 7: "div", 8: "fma", 9: "sqrt-rcp-rsqrt",
-       10: "minmax", 11: "reverse", 12: "sum-product-dot", 13: "hmin-hmax", 14: "mask", 15: "sweep32"}
+       10: "minmax", 11: "reverse", 12: "sum-product-dot", 13: "hmin-hmax", 14: "mask", 15: "sweep32", 16: "cmp"}
 
 RULE = ("instances = (element type, ABI tag, operation group) for float/double/int32/int64/complex<float>/complex<double> x "
         "scalar/sse/avx/avx512/fixed_size<4> (ABIs not specialised under a build fall back to the generic array implementation, "
